@@ -107,6 +107,25 @@ def ndlModel (magic version : Nat) (cfg : NdlCfg) (alpha β₁ β₂ lam : R) (W
         | .openmp => learnOpenmpSeq alpha β₁ β₂ lam cues.length chunks allOut cfg.perJob vals
       .ok (⟨outs, cues, vals'⟩, total)
 
+/-- `ndl.ndl` as it is CALLED, including an event file with ZERO events: then no
+    chunk file is written and a kernel entry point that is called returns its
+    `INITIAL_ERROR_CODE` (ndl_parallel.pyx:68-87, ndl_openmp.pyx:37-67), which
+    `ndl.ndl` turns into `IOError`.  OpenMP: the entry point is always called.
+    Threading: it is called once per work item, i.e. iff the (merged) outcome
+    list is non-empty (ndl.py worker loop) — which needs `weights=` with at
+    least one outcome.  Argument checks and the conversion come first.  For a
+    non-empty event list this is `ndlModel` (`ndlCall_nonempty`). -/
+def ndlCall (magic version : Nat) (cfg : NdlCfg) (alpha β₁ β₂ lam : R) (W0 : Option (LW R))
+    (es : List (Event String String)) : Except Err (LW R × Nat) :=
+  match ndlModel magic version cfg alpha β₁ β₂ lam W0 es with
+  | .error e => .error e
+  | .ok (w, n) =>
+    if es.isEmpty then
+      match cfg.method with
+      | .openmp => .error .io
+      | .threading => if w.outcomes.isEmpty then .ok (w, n) else .error .io
+    else .ok (w, n)
+
 end
 
 end Pyndl
